@@ -55,6 +55,41 @@ def gen_history(rng, n):
     return calls
 
 
+CLI_FLAGS = [[], [], ['-s'], ['-m'], ['-o', '-m'], ['-S'], ['-M'], ['-d'], ['-O', '-A']]
+
+
+def gen_cli_call(rng, pool):
+    a = copy.deepcopy(rng.choice(pool))
+    b, _k = gen_nb.edit_notebook(rng, a)
+    for nb in (a, b):
+        nb['metadata']['foo'] = rng.choice([[1], [2], {'k': 1}])
+    b['metadata']['bar'] = rng.randrange(5)
+    for c_ in b['cells'][:2]:
+        c_['metadata']['tagz'] = rng.randrange(5)
+    r = rng.random()
+    if r < 0.25:
+        cfg = None
+    else:
+        ign = [c for c in c14.CATS if rng.random() < 0.4]
+        m = c14.ignore_mapping(ign) if rng.random() < 0.5 else c14.keys_mapping(ign)
+        m['/metadata'] = rng.choice([['foo'], ['bar'], ['foo', 'bar'], True])
+        cfg = {rng.choice(['NbDiff', 'Diff', 'NbDiff']): {'Ignore': m}}
+    return {'t': 'cli', 'a': enc(a), 'b': enc(b), 'cfg': cfg, 'flags': rng.choice(CLI_FLAGS)}
+
+
+def gen_cli_history(rng):
+    """the nbdiff command run several times in one process from a directory with a configuration file"""
+    pool = [gen_nb.gen_notebook(rng) for _ in range(2)]
+    calls = []
+    for _ in range(rng.choice([2, 3, 4])):
+        calls.append(gen_cli_call(rng, pool))
+        if rng.random() < 0.4:
+            a = copy.deepcopy(rng.choice(pool))
+            b, _k = gen_nb.edit_notebook(rng, a)
+            calls.append({'t': 'diff', 'a': enc(a), 'b': enc(b)})
+    return calls
+
+
 def gen_merge_history(rng):
     """merges whose cell alignment consults the notebook differ, interleaved with configuration changes"""
     calls = []
@@ -106,6 +141,8 @@ def check_histories(ctx, histories, n_spawn):
                 mc.append({'t': 'diff', 'a': c['a'], 'b': c['b'], 'memo': h.get('memo', {})})
             elif c['t'] == 'merge':
                 mc.append({'t': 'other'})
+            elif c['t'] == 'cli':
+                mc.append({'t': 'reset'})        # the command is followed by a reset of the differ
             else:
                 mc.append(c)
         reqs.append({'cmd': 'hist', 'calls': mc})
@@ -114,11 +151,11 @@ def check_histories(ctx, histories, n_spawn):
     mism = []
     for hi, (calls, res, mres) in enumerate(zip(histories, results, model)):
         ctx.count('history-len:%d' % len(calls))
-        nontrivial = sum(1 for c in calls if c['t'] in ('targets', 'ignores', 'reset')) > 0
+        nontrivial = sum(1 for c in calls if c['t'] in ('targets', 'ignores', 'reset', 'cli')) > 0
         ctx.case(json.dumps(calls, sort_keys=True), nontrivial)
         for i, c in enumerate(calls):
             ctx.count('call:' + c['t'])
-            if c['t'] not in ('diff', 'merge'):
+            if c['t'] not in ('diff', 'merge', 'cli'):
                 continue
             h, f = res['hist'][i], res['fresh'][str(i)]
             for cv in (h or {}).get('contract', []):
@@ -149,7 +186,7 @@ def check_histories(ctx, histories, n_spawn):
 
 def run(ctx):
     ctx.cov['rule'] = ('histories of 3-12 calls (diff, merge under a random strategy, set_notebook_diff_targets, '
-                       'set_notebook_diff_ignores, reset) over a small pool of notebooks whose metadata / JSON outputs hold a list '
+                       'set_notebook_diff_ignores, reset, and the nbdiff command run in-process from a directory with an nbdime_config.json) over a small pool of notebooks whose metadata / JSON outputs hold a list '
                        'of lists in one and a list of objects in another at the same path; each diff/merge result compared with a '
                        'pristine interpreter replaying only the configuration calls since the last reset; non-trivial = history '
                        'contains a configuration or reset call; distinct by full history')
@@ -162,6 +199,7 @@ def run(ctx):
         histories += json.load(open(cp))
     histories += [gen_history(rng, rng.choice([3, 5, 8, 12])) for _ in range(n)]
     histories += [gen_merge_history(rng) for _ in range(14 if ctx.tier == 'quick' else 300)]
+    histories += [gen_cli_history(rng) for _ in range(10 if ctx.tier == 'quick' else 150)]
     mism = check_histories(ctx, histories, 12 if ctx.tier == 'quick' else 150)
     ctx.cov['correspondence_mismatches'] = len(mism)
     if mism and not ctx.violations:
